@@ -46,3 +46,19 @@ Print Assumptions C15_other_keys_irrelevant_mouse.
 Print Assumptions C15_no_mask.
 Print Assumptions C15_one_pad.
 Print Assumptions C15_pad_gone.
+
+(* ---- lifted to whole frames (Proofs/FrameLiftP.v): EVERY read of EVERY action evaluation of a frame, in any world,
+   is the specification of the device / key / modifier combination the binding names - spec_read, which all the
+   theorems above are about - unless a consuming action evaluated earlier in the frame has hidden it ---- *)
+From BEI Require Import Model.Frame Proofs.ConsumeP Proofs.RegistryP Proofs.FrameLiftP.
+Theorem C15_every_read_of_a_frame : forall w f k e,
+  nth_error (frame_evals w f) k = Some e ->
+  exists h : list (device * input),
+    er_consumed e = consume_list h (update_state (f_raw f)) /\
+    forall j, reader_value (f_raw f) (er_consumed e) (er_dev e) j =
+              if hidden h (er_dev e) j then zero_of j else spec_read (f_raw f) (ui_any (f_raw f)) (er_dev e) j.
+Proof.
+  intros w f k e Hk. destruct (frame_consumed w f) as (hs & _ & N).
+  destruct (N k e Hk) as [Hc Hr]. exists (concat (firstn k hs)). split; [exact Hc | exact Hr].
+Qed.
+Print Assumptions C15_every_read_of_a_frame.
